@@ -10,7 +10,7 @@ From FB.Base Require Import PyVal Fs.
 From FB.Gen Require Import JsonUtilGen.
 From FB.Spec Require Import Prog.
 From FB.Model Require Import Types Monad CreatedFiles BuildDirs SimpleOps Builder Persist Build Run Frame.
-From FB.Proofs Require Import FsLemmas ReplayLaws FrameLaws RollbackLaws.
+From FB.Proofs Require Import FsLemmas ReplayLaws FrameLaws RollbackDirsLaws.
 Import ListNotations.
 Local Open Scope list_scope.
 
